@@ -518,6 +518,9 @@ func (r *Raft) setCommitIndex(index uint64) (configCommitted bool) {
 		println(r, "commitIndex", r.commitIndex)
 	}
 	if !r.configs.IsCommitted() && r.configs.Latest.Index <= r.commitIndex {
+		// we are removed only if we were a member before: a node that is being
+		// added catches up through older configurations that do not know it yet
+		_, wasMember := r.configs.Committed.Nodes[r.nid]
 		r.commitConfig()
 		configCommitted = true
 		if r.state == Leader && !r.configs.Latest.isVoter(r.nid) {
@@ -529,7 +532,7 @@ func (r *Raft) setCommitIndex(index uint64) (configCommitted bool) {
 			r.setState(Follower)
 			r.setLeader(0)
 		}
-		if r.shutdownOnRemove {
+		if r.shutdownOnRemove && wasMember {
 			if _, ok := r.configs.Latest.Nodes[r.nid]; !ok {
 				r.doClose(ErrNodeRemoved)
 			}
